@@ -22,7 +22,7 @@ ASSUMPTIONS = [
 RULES = ("OneOfMany", "AtMostOne", "AnyOfMany")
 # driver handler configurations on the switches (the property quantifies over "whatever sequence of client writes and
 # assignments": what the driver's own handlers do with them - republish, defer, fail - is part of that sequence)
-MODES = (None, "republish", "defer-all", "defer-s0", "defer-last", "raise-change-s0", "raise-change-last", "raise-write-s0", "raise-write-last", "client-raises", "hide")
+MODES = (None, "republish", "defer-all", "defer-s0", "defer-last", "raise-change-s0", "raise-change-last", "raise-write-s0", "raise-write-last", "raise-read-s0", "raise-read-last", "client-raises", "hide")
 
 
 class HandlerFault(Exception):
@@ -54,6 +54,7 @@ class Sys:
             mode = "republish"  # replay files written before the handler modes existed
         self.mode = mode or None
         self.faulted = False  # a handler of the harness raised during the current operation (the driver may swallow it)
+        self.in_op = False
         outer_ = self
         n_ = len(init)
         # elements whose client writes are deferred by a Write handler (event.prevent_default) and never confirmed
@@ -72,15 +73,17 @@ class Sys:
                 return {"defer_write": on([els[i] for i in sorted(deferred)], Write)(defer)}
 
         elif mode and mode.startswith("raise-"):
-            from indi.device.events import Change, Write, on
+            from indi.device.events import Change, Read, Write, on
 
             which = 0 if mode.endswith("s0") else n_ - 1
-            evt = Change if "change" in mode else Write
+            evt = Change if "change" in mode else (Read if "read" in mode else Write)
 
             def handlers(defs):
                 els = list(defs["g"].vectors["sw"].elements.values())
 
                 def fail(self, event):
+                    if not outer_.in_op:
+                        return  # (the harness reading the state afterwards is not part of the operation)
                     outer_.faulted = True
                     raise HandlerFault("hardware did not answer")
 
@@ -143,6 +146,16 @@ class Sys:
         self.published.clear()
         self.faulted = False
         self.armed = True
+        self.in_op = True
+        try:
+            return self._apply(op)
+        finally:
+            self.in_op = False
+
+    def _apply(self, op):
+        import indi.message as M
+        from indi.message import one_parts
+
         kind = op[0]
         if kind == "client":
             ch = [one_parts.OneSwitch(name="S%d" % i, value="On" if v else "Off") for i, v in op[1]]
